@@ -154,12 +154,20 @@ theorem G_cycle (sc : Scripts) (w : World) (s : FState) (h : G s w) :
   have h1 : G s { w with cycle := w.cycle + 1, users := grantAll w.users w.slots } :=
     G_congr s w _ h (fun x => grantAll_core w.users w.slots x) rfl rfl
   obtain ⟨p1, p2⟩ := G_processIO s _ h1
-  have hb : fifoStep (fifoStep s (Ev.begin (w.cycle + 1))) (Ev.poll (w.cycle + 1) (!hasPending w)) = s := rfl
+  have hb : fifoStep (fifoStep s (Ev.begin (w.cycle + 1))) (Ev.poll (w.cycle + 1) (pollBlocks (hasPending w))) = s := rfl
   rw [hb]
   have hl := G_cmdLoop sc (NV.Gen.C12.loopCalls (connectedUsers w) w.maxUsers) _ _ p1 p2
   split
   · simpa [fifoStep] using hl
-  · simpa [fifoStep] using hl
+  · split
+    · simpa [fifoStep] using hl
+    · simpa [fifoStep] using hl
+
+theorem G_cycleRun (sc : Scripts) (f : Nat) (w : World) (s : FState) (h : G s w) :
+    G ((cycleRun sc f w).2.foldl fifoStep s) (cycleRun sc f w).1 :=
+  cycleRun_fold' sc fifoStep G (fun s w hh => G_cycle sc w s hh)
+    (fun s w hh => G_congr s w _ hh (fun _ => rfl) rfl rfl)
+    (fun s w hh => G_congr s w _ hh (fun _ => rfl) rfl rfl) f w s h
 
 theorem G_step (sc : Scripts) (w : World) (s : FState) (c : Cmd) (h : G s w)
     (hc : (match c with | .send _ d => d.all plainChar | _ => true) = true) :
@@ -168,7 +176,7 @@ theorem G_step (sc : Scripts) (w : World) (s : FState) (c : Cmd) (h : G s w)
   split
   · exact h
   · cases c with
-    | cycle => exact G_cycle sc w s h
+    | cycle => exact G_cycleRun sc _ w s h
     | conn => exact G_congr s w _ h (fun _ => rfl) rfl rfl
     | close u =>
       dsimp only
